@@ -304,6 +304,11 @@ def _ident(x):
     return x
 
 
+def _custom_stats():
+    """a user's stats_funcs DICT whose keys collide with built-in names but whose functions differ from the built-ins"""
+    return {"max": lambda z: float(z.min()) - 1.0, "mean": lambda z: float(z.sum()), "spread": lambda z: float(z.max() - z.min())}
+
+
 def catalog():
     np = _np()
     M = mods()
@@ -380,8 +385,9 @@ def catalog():
                                         **({"target_elev": p["te"]} if "te" in p else {}))),
         variants=[{}, {"vx": 0, "vy": 0, "oe": 1}, {"te": 3}], only={"backend": ["numpy"]})
     add("zonal_stats", "zonal", "stats", [("zones", "zones", {}), ("values", "elev", {"nan": True})],
-        lambda p, ins: ((ins[0], ins[1]), dict({k: v for k, v in p.items() if k != "stats_funcs"},
-                                               **({"stats_funcs": list(p["stats_funcs"])} if "stats_funcs" in p else {}))),
+        lambda p, ins: ((ins[0], ins[1]), dict({k: v for k, v in p.items() if k not in ("stats_funcs", "stats_dict")},
+                                               **({"stats_funcs": list(p["stats_funcs"])} if "stats_funcs" in p else {}),
+                                               **({"stats_funcs": _custom_stats()} if "stats_dict" in p else {}))),
         variants=[{}, {"stats_funcs": ["mean", "max", "min", "sum", "std", "var", "count"]}, {"stats_funcs": ["sum", "count"]},
                   {"zone_ids": [1, 3]}, {"nodata_values": 10}, {"return_type": "xarray.DataArray"}],
         variant_backends={5: ["numpy"]})      # return_type='xarray.DataArray' is NumPy only (the dask path raises)
